@@ -254,6 +254,10 @@ func (p *Path) vpIntrinsic(caller *frame, fn *ssa.Function, name string, args []
 			return Struct{p.xfScaled(*t.X, int(t.Format[2]-'0'))}
 		}
 		p.abortf("vp_TokScaled: unsupported format %q", t.Format)
+	case "vp_ExitCode":
+		// the exit status that (*os.ProcessState).ExitCode reports from now on
+		p.exitCode = int(p.intArg(args[0], "exit code"))
+		return nil
 	case "vp_ChanSlack":
 		// models consumers that drain later: every channel accepts n more sends than its capacity
 		p.chanSlack = int(p.intArg(args[0], "slack"))
